@@ -73,6 +73,7 @@ struct Model
   {
     MatL X;
     VecL vel, acc;
+    LD vscale = 0, ascale = 0;  // natural magnitudes K |V| / T and K (K-1) |V| (1 + |V|) / T^2 of the piece
   };
   Val piece_eval(size_t i, double t) const
   {
@@ -86,6 +87,10 @@ struct Model
     v.X   = p.P * orc::inverse(R0.X) * R.X;
     v.vel = R.vel * (p.Del / T);
     v.acc = R.acc * (p.Del / T) * (p.Del / T);
+    LD vm = 0;
+    for (const auto & c : p.V) vm = std::max(vm, maxabs<LD>(MatL(c)));
+    v.vscale = K * vm * (p.Del / T);
+    v.ascale = K * std::max(1, K - 1) * vm * (1 + vm) * (p.Del / T) * (p.Del / T);
     return v;
   }
   // piece index governing time t in [0, t_max]: start <= t < end, the last piece includes its end
@@ -285,7 +290,10 @@ void compare(const char * when, const Spline<K, G> & s, const Model<K, G> & m, v
     T vel, acc;
     const G y  = s(tt, vel, acc);
     const auto r = m.eval(tt);
-    const double sv = std::max(1e-3, static_cast<double>(maxabs<LD>(MatL(r.vel)))), sa = std::max(1e-3, static_cast<double>(maxabs<LD>(MatL(r.acc))));
+    // relative to the larger of the reference value and the natural magnitude of the piece's derivatives
+    // (a constant-velocity piece has acceleration 0 up to rounding of terms of size K(K-1)|V|/T^2)
+    const double sv = std::max({1e-300, static_cast<double>(maxabs<LD>(MatL(r.vel))), static_cast<double>(r.vscale)});
+    const double sa = std::max({1e-300, static_cast<double>(maxabs<LD>(MatL(r.acc))), static_cast<double>(r.ascale)});
     const bool out = tt < 0 || tt > m.t_max() || np == 0;
     char tb[40];
     std::snprintf(tb, sizeof tb, "%.17g", tt);
